@@ -1,5 +1,6 @@
 import Qentem.Model.NumToStr
 import Qentem.Model.FmtSpec
+import Qentem.Proofs.NumToStrRound
 /-! C11 — every finite double survives format(17 digits) then parse, bit for bit; every float
 survives 9 digits.
 
@@ -73,6 +74,28 @@ theorem identifies9_zero : Identifies9On (fun b => b = 0 ∨ b = 2 ^ 31) := by
   rcases hb with rfl | rfl
   · exact ⟨[48], by decide +kernel, by decide +kernel⟩
   · exact ⟨[45, 48], by decide +kernel, by decide +kernel⟩
+
+/-- partial (`roundtrip_small_int`): for every double that holds an integer of magnitude below 2^53
+(either sign) the 17-digit text is exactly the decimal numeral of that integer — no fault, no
+exponent form, no rounding — and the reference reader recovers exactly the same value
+`n · den / den` that the bit pattern decodes to.  Hence *any* parser that is exact on integer numerals
+of at most 16 digits (C09's `int_exact`) returns the original double. -/
+theorem roundtrip_small_int (bits j : Nat)
+    (h : Qentem.Proofs.NumToStr.IntValued64 ((bits / 2 ^ 52) % 2 ^ 11) (bits % 2 ^ 52) j)
+    (hsmall : (bits / 2 ^ 52) % 2 ^ 11 - 1023 ≤ 52) :
+    ∃ t neg n den, 0 < den ∧ format17 bits = .ok t ∧
+      FmtSpec.readDecimal t = some (neg, n, 1) ∧ FmtSpec.decode64 bits = .fin neg (n * den) den := by
+  obtain ⟨den, hden, hdec⟩ := Qentem.Proofs.NumToStr.decode64_int h
+  exact ⟨_, _, _, den, hden, Qentem.Proofs.NumToStr.format17_small_int bits j h hsmall,
+    Qentem.Proofs.NumToStr.readDecimal_signed_D _ _, hdec⟩
+
+/-- non-vacuity: 3.0 and -(2^53 - 1) satisfy the hypotheses -/
+example : Qentem.Proofs.NumToStr.IntValued64 ((0x4008000000000000 / 2 ^ 52) % 2 ^ 11) (0x4008000000000000 % 2 ^ 52) 51 := by
+  constructor <;> decide
+example : Qentem.Proofs.NumToStr.IntValued64 ((0xC33FFFFFFFFFFFFF / 2 ^ 52) % 2 ^ 11) (0xC33FFFFFFFFFFFFF % 2 ^ 52) 0 := by
+  constructor <;> decide
+example : format17 0xC33FFFFFFFFFFFFF = .ok [45, 57, 48, 48, 55, 49, 57, 57, 50, 53, 52, 55, 52, 48, 57, 57, 49] := by
+  decide +kernel  -- -9007199254740991
 
 /-! Kernel-evaluated instances of the formatter half on boundary patterns.  These are **tests**
 (closed instances decided by evaluation), not part of the proof of the general statement:
